@@ -454,27 +454,54 @@ def obs_tol(case):
     return 1e-9 if exact else 1e-5
 
 
+def _q4(st, eps):
+    return f"({coq_Q(F(st[0]))}, {coq_Q(F(st[1]))}, {coq_Q(F(st[2]))}, {coq_Q(F(math.sqrt(max(st[1] + eps, 0.0))))})"
+
+
+def _stats_term(stats, chans, eps):
+    return coq_list(["None" if (st is None or not chans[ch]) else f"(Some {_q4(st, eps)})" for ch, st in enumerate(stats)])
+
+
 def _ck(ev, case, chans):
     """Coq opcheck record for one event"""
     eps = case["epsilon"]
     n = len(case["scripts"])
     nchan = len(chans)
-    q4 = lambda s: f"({coq_Q(F(s[0]))}, {coq_Q(F(s[1]))}, {coq_Q(F(s[2]))}, {coq_Q(F(math.sqrt(max(s[1] + eps, 0.0))))})"  # noqa: E731
-    stats = coq_list(["None" if (s is None or not chans[ch]) else f"(Some {q4(s)})" for ch, s in enumerate(ev["stats"])])
-    ret = q4(ev["ret_stats"])
+    stats = _stats_term(ev["stats"], chans, eps)
+    ret = _q4(ev["ret_stats"], eps)
     returns = coq_list([F(x) for x in ev["returns"]], coq_Q)
     training, norm_obs, norm_reward = ev["flags"]
-    out_obs = out_term = unn = out_rews = "[]"
+    out_obs = out_term = unn = out_rews = orig_obs = orig_rew = "[]"
     vec = lambda v: coq_list([F(x) for x in v[:nchan]], coq_Q)  # noqa: E731
-    if ev["op"] != "set" and norm_obs:
+    if ev["op"] != "set":
         out_obs = coq_list([vec(ev["out_obs"][i]) for i in range(n)])
-        unn = coq_list([vec(ev["unnorm_obs"][i]) for i in range(n)])
+        orig_obs = coq_list([vec(ev["orig_obs"][i]) for i in range(n)])
+        if norm_obs:
+            unn = coq_list([vec(ev["unnorm_obs"][i]) for i in range(n)])
         if ev["op"] == "step":
-            out_term = coq_list(["None" if (ev["raw_term"][i] is None or ev["out_term"][i] is None) else f"(Some ({vec(ev['raw_term'][i])}, {vec(ev['out_term'][i])}))"
-                                 for i in range(n)])
-    if ev["op"] == "step" and norm_reward:
-        out_rews = coq_list([F(x) for x in ev["out_rews"]], coq_Q)
-    return f"(mk_ck {stats} {ret} {returns} {out_obs} {out_term} {unn} {out_rews})"
+            # a done sub-environment must carry a terminal observation: a missing one is sent as an impossible value
+            out_term = coq_list(["None" if ev["raw_term"][i] is None else
+                                 f"(Some ({vec(ev['raw_term'][i])}, {vec(ev['out_term'][i]) if ev['out_term'][i] is not None else '[]'}))" for i in range(n)])
+            out_rews = coq_list([F(x) for x in ev["out_rews"]], coq_Q)
+            orig_rew = coq_list([F(x) for x in ev["orig_rew"]], coq_Q)
+    return f"(mk_ck {stats} {ret} {returns} {out_obs} {out_term} {unn} {out_rews} {orig_obs} {orig_rew})"
+
+
+def chan_stats(fields, kind, nchan):
+    """per-channel [mean, var, count] from the `fields` snapshot of a wrapper"""
+    o = fields["obs_rms"]
+    if o is None:
+        return [None] * nchan
+    if kind == "box":
+        return [[o[0][ch], o[1][ch], o[2]] for ch in range(nchan)]
+    out = []
+    for ch, key in enumerate(["a", "a", "b"][:nchan]):
+        if key not in o:
+            out.append(None)
+        else:
+            j = ch if key == "a" else 0
+            out.append([o[key][0][j], o[key][1][j], o[key][2]])
+    return out
 
 
 def exprs_vecnorm(case, impl):
@@ -483,6 +510,7 @@ def exprs_vecnorm(case, impl):
     chans = impl["chan_norm"]
     n = len(case["scripts"])
     nchan = len(chans)
+    eps = case["epsilon"]
     p = (f"(mk_vnp {coq_Q(F(case['clip_obs']))} {coq_Q(F(case['clip_reward']))} {coq_Q(F(case['gamma']))} {coq_Q(F(case['epsilon']))} "
          f"{coq_list(chans, coq_bool)})")
     ops = []
@@ -497,10 +525,19 @@ def exprs_vecnorm(case, impl):
                 o = f"OStep {obs} {coq_list([F(r) for r in ev['raw_rews']], coq_Q)} {coq_list(ev['dones'], coq_bool)}"
         ops.append(f"({o}, {_ck(ev, case, chans)})")
     init = f"(vn_init {p} {coq_nat(n)} {coq_bool(case['training'])} {coq_bool(case['norm_obs'])} {coq_bool(case['norm_reward'])})"
-    return [f"vn_trace {coq_Q(F(obs_tol(case)))} {p} {init} {coq_list(ops)}"]
+    # what save/load and sync showed, against the model's unpickle_pickle / sync of the final state
+    kind = case["obs_kind"]
+    has_rms = impl["saved"]["obs_rms"] is not None
+    chans_l = chans if has_rms else [False] * nchan
+    fin = (f"(mk_fin {_stats_term(chan_stats(impl['loaded'], kind, nchan), chans_l, eps)} {_q4(impl['loaded']['ret_rms'], eps)} "
+           f"{coq_list([F(x) for x in impl['loaded_returns']], coq_Q)} "
+           f"{_stats_term(chan_stats(impl['synced'], kind, nchan), chans_l, eps)} {_q4(impl['synced']['ret_rms'], eps)})")
+    other = f"(vn_init {p} {coq_nat(n)} true true true)"
+    return [f"vn_trace {coq_Q(F(obs_tol(case)))} {p} {init} {coq_list(ops)} {coq_nat(n)} {other} {fin}"]
 
 
-CHECK_NAMES = ["obs-statistics", "return-statistics", "returns-accumulator", "normalised-observation", "normalised-reward", "unnormalised-observation"]
+CHECK_NAMES = ["obs-statistics", "return-statistics", "returns-accumulator", "returned-or-terminal-observation", "returned-reward", "unnormalised-observation", "original-obs-or-reward"]
+FINAL_NAMES = ["loaded-obs-statistics", "loaded-return-statistics", "loaded-returns", "synced-obs-statistics", "synced-return-statistics"]
 # (order of the booleans returned by Model.VecNorm.check_state)
 
 
@@ -547,6 +584,10 @@ def compare_vecnorm(case, impl, mv):
                 probs.append(("oracle-original-reward", f"op {k}: get_original_reward {ev['orig_rew']} != raw rewards {ev['raw_rews']}"))
             if not ev["out_dtype_ok"]:
                 probs.append(("oracle-output-dtype", f"op {k}: returned observations / rewards are not float32"))
+            if op[0] == "step":
+                for i in range(n):
+                    if ev["dones"][i] and ev["raw_term"][i] is not None and ev["out_term"][i] is None:
+                        probs.append(("oracle-terminal-observation-missing", f"op {k} env {i}: done but info has no terminal_observation"))
             # transforms
             for ch in range(nchan):
                 st = ev["stats"][ch]
@@ -612,7 +653,10 @@ def compare_vecnorm(case, impl, mv):
     if impl["sync_shares_memory"]:
         probs.append(("oracle-sync-shares-memory", "sync_envs_normalization left the two wrappers sharing statistics arrays"))
     # ---- model vs impl (decided inside Coq)
-    rows = mv[0]
+    rows, fin = mv[0]
+    for name, ok in zip(FINAL_NAMES, fin):
+        if ok is not True:
+            probs.append(("vecnorm-" + name, f"after the history: Model.VecNorm.unpickle_pickle / sync and the implementation disagree on {name}"))
     if len(rows) != len(case["ops"]):
         probs.append(("vecnorm-model-length", f"{len(rows)} model rows for {len(case['ops'])} operations"))
     else:
@@ -631,7 +675,7 @@ COMPARE = {"rms": compare_rms, "vecnorm": compare_vecnorm}
 
 
 def nontrivial(case, impl):
-    if "late_norm_obs" in impl:
+    if "late_norm_obs" in impl or "raised" in impl:
         return False
     if case["kind"] == "rms":
         return len(case["split_a"]) >= 2 and case["split_a"] != case["split_b"]
@@ -644,14 +688,24 @@ def nontrivial(case, impl):
 
 
 def run_cases(chk, cases):
-    impls = [RUN[c["kind"]](c) for c in cases]
+    impls = []
+    for c in cases:
+        try:
+            impls.append(RUN[c["kind"]](c))
+        except Exception as e:  # noqa: BLE001  - the implementation (or the run on it) raised: a violation, not a crash of the check
+            import traceback
+
+            tb = traceback.extract_tb(e.__traceback__)
+            where = next((f"{os.path.basename(f.filename)}:{f.lineno}" for f in reversed(tb) if "/stable_baselines3/" in f.filename), "harness")
+            impls.append({"raised": f"{type(e).__name__}: {e} (at {where})"})
     exprs, spans = [], []
     for c, im in zip(cases, impls):
-        e = EXPRS[c["kind"]](c, im)
+        e = ["true"] if "raised" in im else EXPRS[c["kind"]](c, im)
         spans.append((len(exprs), len(exprs) + len(e)))
         exprs += e
     vals = common.coq_eval_many(chk.pid, HEADER, exprs, shard=60, procs=4)
-    results = [COMPARE[c["kind"]](c, im, vals[a:b]) for c, im, (a, b) in zip(cases, impls, spans)]
+    results = [([("oracle-implementation-raises", "the implementation raises on a legal history: " + im["raised"])] if "raised" in im
+                else COMPARE[c["kind"]](c, im, vals[a:b])) for c, im, (a, b) in zip(cases, impls, spans)]
     return impls, results
 
 
